@@ -17,7 +17,7 @@
 From Coq Require Import List Arith Bool NArith Ring.
 From Verif.lib Require Import FinSet.
 From Verif.C04 Require Import Model Proofs ProofsFun.
-From Verif.C03 Require Import Model Proofs.
+From Verif.C03 Require Import Model Proofs Proofs2 Proofs3.
 Import ListNotations.
 
 (* neighbours are complete: for every space st (no reachability needed), every level pair i < k (REPAIRED code:
@@ -141,19 +141,54 @@ Theorem thb_congruence : forall (R : Type) (r0 r1 : R) radd rmul rsub ropp,
 Proof. exact thb_congruence_l. Qed.
 Print Assumptions thb_congruence.
 
-(* NOT PROVED: hassemble_entry (full statement)
-     forall axes disp ops (valid history), st := run (hs_init axes disp) ops, for the concrete
-       nb := neighbors st b, il := interlevel st pmat, ta := to_assemble st pmat, rep := products of the Kronecker
-       prolongators, fns := tp_functions, every form a with  a k r c = 0 for functions r, c of level k with disjoint supports:
-     blk_entry .. false li fi lj fj = spec_entry .. li fi lj fj  for all active fi, fj.
-   Proved: the reduction of this statement to hypotheses (1) and (2) of hassemble_entry_lower/upper_partial, and
-   neighbors_complete (the set-level half of (2)).  Missing: (1) for the concrete rep (a product of Kronecker
-   matrices vanishes outside function_grandchildren: induction over levels), the geometric half of (2) (children have
-   their support inside the parent's: a property of the real two-scale relation, it would be a hypothesis on pmat),
-   window_sufficient (no interaction outside the disparity window: needs C04's unproved disparity_admissible), and the
-   link between the sparse-matrix program assemble_hb (COO merge, fancy indexing, represent_fine) and blk_entry, which
-   is compared exactly on sampled entries of every history of the correspondence run and on all entries of
-   Examples.ex_sparse_program_is_entry_form (tests). *)
+(* Entry characterisation for the CONCRETE index sets of the model, general assembly, every pair of active
+   functions of every pair of levels:  nb = neighbors[k][l] (nbr st), il = interlevel_ix[k] (function_grandchildren
+   through the CSC pattern of the prolongators pmat), ta = to_assemble[k], and rep = repc = products of the Kronecker
+   prolongators (kron_entry).  Proved from:
+     local a      the level forms are local: functions of level k with disjoint supports do not interact;
+     P_local      children lie inside the parent's support (a stored entry (r', r) of the Kronecker prolongator implies
+                  parent(c) in supp r for every cell c of supp r');
+     mesh_ok      C04's duality of suppfunc/meshsupp on every level of st, equal dimensions, active functions are
+                  functions of their mesh (C04 invariants of reachable states), interlevel_ix inside the index box of its
+                  level (the prolongators have the shape of the meshes).
+   The two hypotheses of hassemble_entry_lower/upper_partial are DISCHARGED here: representations of neighbours vanish
+   outside interlevel_ix (support-pattern lemma repn_pattern for products of Kronecker matrices, no geometry needed), and
+   non-neighbours contribute no non-zero term (grand_support + neighbors_complete + locality). *)
+Theorem hassemble_entry_partial : forall (R : Type) (r0 r1 : R) radd rmul rsub ropp,
+  ring_theory r0 r1 radd rmul rsub ropp eq ->
+  forall (st : hspace) (pmat : nat -> nat -> smat R) (a : nat -> mi -> mi -> R),
+  local R r0 st a ->
+  P_local R st pmat ->
+  (forall k, k < numlevels st -> mesh_ok (msh st k)) ->
+  (forall k k', dim (msh st k) = dim (msh st k')) ->
+  (forall k f, In f (AFm st k) -> In f (tp_functions (msh st k))) ->
+  (forall k r, In r (interlevel R st pmat k) -> In r (tp_functions (msh st k))) ->
+  forall li fi lj fj,
+  li < numlevels st -> lj < numlevels st -> In fi (AFm st li) -> In fj (AFm st lj) ->
+  blk_entry R r0 radd rmul a (repc R r0 r1 radd rmul st pmat) (nbr st) (interlevel R st pmat) (to_assemble R st pmat)
+            false li fi lj fj
+  = spec_entry R r0 radd rmul a (repc R r0 r1 radd rmul st pmat) (fun k => tp_functions (msh st k)) li fi lj fj.
+Proof. exact hassemble_entry_concrete. Qed.
+Print Assumptions hassemble_entry_partial.
+(* NOT PROVED: hassemble_entry = the same for st := run (hs_init axes disp) ops (valid history) and pmat := the exact
+   Boehm prolongators, WITHOUT the hypotheses P_local / mesh_ok / dims / AF in F / il in F.  Missing: P_local and the shape
+   fact for the C05 knot-insertion matrices (C05 works over knot functions nat -> Qc, no link to C04's integer tables yet);
+   mesh_ok etc. follow from C04's hier_ok once that is discharged there.  Also NOT PROVED: that the sparse-matrix program
+   assemble_hb (fancy indexing, sparse products, represent_fine) evaluates blk_entry; the COO stage of it is proved
+   (coo_merge_sums_duplicates, insert_block_entries, fancy_index_rows, fancy_index_columns below; sparse products, transpose, Kronecker product and the represent_fine loop are not), the rest is compared exactly on sampled entries of every history
+   of the correspondence run and on all entries of Examples.ex_sparse_program_is_entry_form (tests). *)
+
+(* Load vector (assemble_functional, HB): entry number offset_k + p is the entry of the level-k tensor-product load vector
+   at the raveled index of the p-th active function of level k -- every hierarchical basis function is integrated with the
+   quadrature of ITS OWN level (by design; this is what C17's finding about hierarchical load vectors observes), for every
+   space and arbitrary level vectors.  The THB vector is thb_to_hb^T times this one by definition (Model.assemble_functional). *)
+Theorem functional_entry : forall (R : Type) (r0 : R) (st : hspace) (blev : nat -> list R) k p,
+  k < L st -> p < length (AFm st k) ->
+  nth (N.to_nat (offset st k) + p) (rhs_hb R r0 st blev) r0
+  = nth (N.to_nat (ravel (shape st k) (nth p (AFm st k) []))) (blev k) r0.
+Proof. exact functional_entry_l. Qed.
+Print Assumptions functional_entry.
+
 
 (* The disparity window of the UNPATCHED assembly (neighbors_old: only levels k - disparity .. k-1) is not
    sufficient on every reachable space: after a refine(..., truncate=True) call (the marking variant meant for
@@ -165,3 +200,33 @@ Theorem window_sufficient_old_refuted : exists axes d ops k i f,
   In f (neighbors st None k i) /\ ~ In f (neighbors_old st None k i) /\ admissible_b st d = false.
 Proof. exact window_old_witness. Qed.
 Print Assumptions window_sufficient_old_refuted.
+
+(* The COO stage of the sparse-matrix program.  The conversion of the blockwise COO data to CSR (Model.coo_to_rows =
+   scipy.sparse.csr_matrix((values, (I, J)))) returns at (i, j) the SUM of the values of all triplets at (i, j) -- for
+   every COO list (any order, any duplicates, rows outside the shape ignored) and every row i below the shape. *)
+Theorem coo_merge_sums_duplicates : forall (R : Type) (r0 r1 : R) radd rmul rsub ropp,
+  ring_theory r0 r1 radd rmul rsub ropp eq ->
+  forall n (m : coo R) i j, N.to_nat i < n ->
+  sm_get R r0 (coo_to_rows R r1 radd rmul n m) i j = coo_get R r0 radd m i j.
+Proof. exact coo_merge_l. Qed.
+Print Assumptions coo_merge_sums_duplicates.
+
+(* insert_block(B, rows, columns) emits exactly the stored entries of B (explicitly stored zeros included: REPAIRED
+   behaviour, fixes/C03-insert-block-stored-zeros.patch), entry (ib, jb) at (rows[ib], columns[jb]). *)
+Theorem insert_block_entries : forall (R : Type) (B : smat R) rows cols i j v,
+  In (i, j, v) (insert_block R B rows cols) <->
+  exists ib e, ib < length B /\ In e (nth ib B []) /\ i = nth ib rows 0%N /\ j = nth (N.to_nat (fst e)) cols 0%N /\ v = snd e.
+Proof. exact insert_block_In. Qed.
+Print Assumptions insert_block_entries.
+
+(* Fancy indexing (M[idx] and M[:, idx] with the columns renumbered by position), for every sparse matrix and every index
+   list (any order, repetitions allowed -- numpy semantics): position p of the result is row / column idx[p] of M. *)
+Theorem fancy_index_rows : forall (R : Type) (r0 : R) (M : smat R) (idx : list N) p j, p < length idx ->
+  sm_get R r0 (sm_rows R M idx) (N.of_nat p) j = sm_get R r0 M (nth p idx 0%N) j.
+Proof. exact sm_rows_get. Qed.
+Print Assumptions fancy_index_rows.
+
+Theorem fancy_index_columns : forall (R : Type) (r0 : R) (M : smat R) (idx : list N) i p, p < length idx ->
+  sm_get R r0 (sm_cols R M idx) i (N.of_nat p) = sm_get R r0 M i (nth p idx 0%N).
+Proof. exact sm_cols_get. Qed.
+Print Assumptions fancy_index_columns.
